@@ -887,8 +887,31 @@ fn c15_case(rng: &mut Rng) -> (String, Opt, String) {
     // (a bare ESC swallowing the following space, unterminated or coloured sequences): whole-
     // paragraph measurements then differ from per-word ones
     let odd = rng.chance(1, 6);
-    let words: Vec<&str> = (0..n)
-        .map(|_| if odd && rng.chance(1, 3) { *rng.pick(&["ab\x1b", "\x1b[1", "x\x1b]0;t", "\x1b[31mred\x1b[0m", "q\x1b"]) } else { *rng.pick(VOCAB) })
+    // one case in five contains words made of (or touched by) a character from outside the
+    // vocabulary: punctuation and dashes, every kind of Unicode blank, ASCII edge characters —
+    // as a word of its own, or in front of / behind a vocabulary word. A word must not begin with
+    // a prefix character and contains no ' ', LF or CR (the property's class of paragraphs).
+    let strange = rng.chance(1, 5);
+    let words: Vec<String> = (0..n)
+        .map(|_| {
+            if odd && rng.chance(1, 3) {
+                rng.pick(&["ab\x1b", "\x1b[1", "x\x1b]0;t", "\x1b[31mred\x1b[0m", "q\x1b"]).to_string()
+            } else if strange && rng.chance(1, 3) {
+                let c = match rng.below(4) {
+                    0 => rng.pick(gen::ASCII_EDGE).chars().next().unwrap(),
+                    1 => rng.pick(gen::WS).chars().next().unwrap(),
+                    _ => gen::exotic(rng),
+                };
+                let c = if matches!(c, ' ' | '\n' | '\r' | '-' | '+' | '*' | '>' | '#' | '/') { 'x' } else { c };
+                match rng.below(3) {
+                    0 => c.to_string(),
+                    1 => format!("{}{}", rng.pick(VOCAB), c),
+                    _ => format!("{}{}", c, rng.pick(VOCAB)),
+                }
+            } else {
+                rng.pick(VOCAB).to_string()
+            }
+        })
         .collect();
     let p = words.join(" ");
     let mut o = Opt::new(rng.below(14));
